@@ -294,7 +294,7 @@ func runC12(p *Prog, r *Report, tier string) {
 		fi := p.info(c.fn)
 		free := false
 		for _, s := range c.successReturns() {
-			if fi.entryReachesAvoiding(s, c.instrs(bmRead)) {
+			if fi.entryReachesAvoiding(c.siteInFn(s), c.instrs(bmRead)) {
 				free = true
 			}
 		}
